@@ -3,3 +3,4 @@ pub mod text;
 pub mod strlit;
 pub mod syntax;
 pub mod schema;
+pub mod schema_ext;
